@@ -72,6 +72,10 @@ def cases(tier, seed):
         if spec.get('layout') == 'csr' and not spec.get('gmd') and spec['prod'] not in ('B-full', 'A2'):
             for w in CONVERT_WRITERS:
                 out.append(dict(spec, writer=w, compress=True))
+    # FS: a write with a caller-supplied per-category formatter, then an ordinary write in the same process
+    for lay in ('csr', 'csc'):
+        out.append({'prod': 'FS', 'shape': [2, 3], 'mask': 0b110111, 'rot': 0, 'layout': lay, 'obs_md': 'text',
+                    'samp_md': 'text', 'header': 1, 'writer': 'to_hdf5_core', 'compress': True})
     for spec in e_spine(tier):
         for w in DIRECT_WRITERS:
             for comp in (True, False):
@@ -179,6 +183,17 @@ def check(case, acc, tmp):
         return
     w = case['writer']
     tag = '%016x' % h64(json.dumps(case, sort_keys=True))
+    if case['prod'] == 'FS':
+        # first a write that passes its own formatter for the category 'label' ...
+        def shout(grp, header, md, compression):
+            grp.create_dataset('metadata/%s' % header, shape=(len(md),), dtype=h5py.special_dtype(vlen=str),
+                               data=[('!' + str(m[header])).encode('utf8') for m in md], compression=compression)
+        fh0 = h5py.File('c04-fs-%d.h5' % os.getpid(), 'w', driver='core', backing_store=False)
+        try:
+            t.to_hdf5(fh0, 'verif', format_fs={'label': shout})
+        finally:
+            fh0.close()
+        # ... then the ordinary write below must hold the table's own values again
 
     def bad(sig, detail):
         acc.violation(sig, '[%s] %s' % (w, detail), case)
